@@ -253,6 +253,46 @@ def run_unit(unit: dict) -> dict:
                         elif got != want:
                             acc.violation(f"G: repaired new page {newrel}: {got} notes indexed, {want} compiled", gcase, cls="repaired page not fully indexed")
                 acc.sig(("G", newrel.split("_")[0]))
+        # ---- scenario H: a whitelisted broken page whose NAME contains a blank, next to a broken page named like a fragment of it
+        shutil.rmtree(root / ".zorg", ignore_errors=True)
+        for extra in ("zz_new_broken.zo", "aa_new_broken.zo", "sub/new_broken.zo"):
+            if (root / extra).exists():
+                (root / extra).unlink()
+        (root / victim).write_text(good_text)
+        bad_h = _flagged_variant(rng, good_text)
+        if bad_h is not None and idx % 2 == 0:
+            import re as _re2
+
+            hcase = dict(case, scenario="H")
+            spaced, frag = "old notes.zo", "notes.zo"
+            body_h = _re2.sub(r"\b\d{6}#[0-9A-Za-z]{2,3}\b ?", "", bad_h)
+            (root / spaced).write_bytes(body_h.encode("utf-8", "surrogatepass"))
+            ch = harness.compile_path(root, Path(spaced))
+            if ch.exc is None and ch.parser_errors and ch.page.has_errors:
+                acc.count("scenarioH.runs")
+                acc.evaluations += 1
+                acc.judged += 1
+                r1 = db.cli(root, "db", "create", "-f")
+                wl = _whitelist(root)
+                r2 = db.cli(root, "db", "create")
+                (root / frag).write_bytes(body_h.encode("utf-8", "surrogatepass"))
+                r3 = db.cli(root, "db", "reindex")
+                d3 = db.dump_index(root)
+                wl3 = _whitelist(root)
+                if r1.rc != 0:
+                    acc.violation(f"H1 `db create -f` failed rc={r1.rc} {r1.err[-200:]}", hcase, cls="db create -f fails")
+                elif spaced not in wl:
+                    acc.violation(f"H1 `db create -f`: {spaced!r} not in the whitelist {wl}", hcase, cls="whitelist not updated by -f")
+                elif r2.rc != 0:
+                    acc.violation(f"H2 `db create` refuses the whitelisted page {spaced!r} rc={r2.rc}", hcase, cls="whitelisted page refused")
+                elif r3.rc == 0:
+                    acc.violation(f"H3 `db reindex` accepted the new broken, non-whitelisted page {frag!r} (whitelist {wl3}; page rows {[p_ for p_ in d3.pages if p_['path'] == frag]})", hcase, cls="db reindex accepts a non-whitelisted broken page")
+                elif spaced not in wl3:
+                    acc.violation(f"H3 the whitelist lost {spaced!r}: {wl3}", hcase, cls="whitelist entry damaged")
+                acc.sig(("H", r3.rc != 0))
+            for extra in (spaced, frag):
+                if (root / extra).exists():
+                    (root / extra).unlink()
         acc.sample({"victim": victim, "broken_kind": kind, "bad_text": bad_text[:200]}, cap=2)
     shutil.rmtree(base, ignore_errors=True)
     acc.merge_counts(harness.COUNTERS.take())
